@@ -722,6 +722,9 @@ func (loader *Loader) resolveParameterRef(doc *T, component *ParameterRef, docum
 	}
 	for _, name := range componentNames(value.Content) {
 		contentType := value.Content[name]
+		if contentType == nil {
+			continue
+		}
 		if schema := contentType.Schema; schema != nil {
 			if err := loader.resolveSchemaRef(doc, schema, documentPath, []string{}); err != nil {
 				return err
